@@ -71,6 +71,9 @@ var shapeFocus = map[string]string{
 	"pending-calls":                        "syncCall syncCancel close dealer timerCancel",
 	"bad-realm-uri":                        "addRealm AddRealm newRealm newBroker newDealer RealmTemplate AttachClient",
 	"removerealm-during-auth":              "getAuthenticator authClient RemoveRealm AttachClient close actionChan",
+	"stalled-metacall-unregister":          "unregister syncUnregister metaPeer yield syncYield createMetaSession dealer register",
+	"stalled-callee-cancel-kill":           "syncCancel cancel INTERRUPT trySend dealer call_canceling",
+	"caller-leaves-with-armed-timer":       "syncRemoveSession removeSession timerCancel timers close dealer syncCall onLeave",
 	yrShape:                                "yield syncYield syncCancel sendResultDeadline yieldRetryDelay keepInvocation dealer",
 }
 
@@ -81,6 +84,7 @@ var c07Shapes = []struct {
 	{"random", 30}, {"stalled-metacall", 12}, {"stalled-sub-flood", 10}, {"stalled-caller-yield", 8},
 	{"stalled-callee", 8}, {"kill-stalled", 8}, {"realm-churn", 5}, {"burst-mix", 10},
 	{"meta-subscriber-stalled", 7}, {"stalled-rawsocket-ppt", 2},
+	{"stalled-metacall-unregister", 4}, {"stalled-callee-cancel-kill", 4},
 }
 
 var c06Shapes = []struct {
@@ -91,6 +95,7 @@ var c06Shapes = []struct {
 	{"meta-in-flight", 6}, {"hello-goodbye", 6}, {"kill-then-close", 5}, {"drop-then-close", 5},
 	{"cancelled-stalled-metacall", 6}, {"publish-held-until-subscriber-closed", 5}, {"authz-held-at-close", 4},
 	{"join-in-burst", 5}, {"pending-calls", 6}, {"bad-realm-uri", 5}, {"removerealm-during-auth", 5},
+	{"caller-leaves-with-armed-timer", 8},
 }
 
 type genOpts struct {
@@ -608,6 +613,60 @@ func genC07(o *genOpts, k int) *History {
 			b.add(Op{Op: "unregister", S: x, Proc: "p2"})
 		}
 		b.randomOps(post)
+	case "stalled-metacall-unregister":
+		// A bystander registers while the meta session is free; a session with a
+		// full queue calls a meta procedure (the meta-session handler sits in the
+		// RESULT retry); the bystander UNREGISTERs meanwhile.
+		vs, _ := b.population(1, r.between(2, 4))
+		v := vs[0]
+		if b.qOf(v) > 2 {
+			h.Sessions[v].Q = queueSizes[r.intn(2)]
+		}
+		xs := b.byIn(b.realmOf(v))
+		if len(xs) < 2 {
+			break
+		}
+		x := xs[r.intn(len(xs))]
+		b.add(Op{Op: "register", S: x, Proc: "p2"})
+		b.regs[b.realmOf(x)+"|p2"] = x
+		b.randomOps(pre / 3)
+		if !b.alive[v] || !b.alive[x] || b.regs[b.realmOf(x)+"|p2"] != x || !b.fillVictim(v) {
+			break
+		}
+		b.add(Op{Op: "metacall", S: v, Proc: metaProcs[r.intn(3)]})
+		b.add(Op{Op: "unregister", S: x, Proc: "p2"})
+		delete(b.regs, b.realmOf(x)+"|p2")
+		b.randomOps(post / 2)
+	case "stalled-callee-cancel-kill":
+		// A callee that announced call_canceling holds a call, stops reading with
+		// its queue completely full; the caller CANCELs with mode kill.
+		vs, by := b.population(1, r.between(2, 4))
+		v := vs[0]
+		if b.qOf(v) > 2 {
+			h.Sessions[v].Q = queueSizes[r.intn(2)]
+		}
+		h.Sessions[v].Feat = true
+		xs := b.byIn(b.realmOf(v))
+		if len(xs) < 2 {
+			break
+		}
+		_ = by
+		caller := xs[r.intn(len(xs))]
+		b.add(Op{Op: "register", S: v, Proc: "p1"})
+		b.regs[b.realmOf(v)+"|p1"] = v
+		b.randomOps(pre / 3)
+		if !b.alive[v] || !b.alive[caller] || b.stalled[v] || b.regs[b.realmOf(v)+"|p1"] != v {
+			break
+		}
+		b.add(Op{Op: "call", S: caller, Proc: "p1", Hold: true})
+		b.heldAt[v]++
+		b.pending[caller]++
+		if !b.fillVictim(v) {
+			break
+		}
+		b.add(Op{Op: "cancel", S: caller, Mode: []string{"kill", "kill", "killnowait", "skip"}[r.intn(4)]})
+		b.pending[caller]--
+		b.randomOps(post / 2)
 	case "stalled-sub-flood":
 		vs, _ := b.population(r.between(1, 3), r.between(2, 4))
 		b.randomOps(pre)
@@ -754,6 +813,41 @@ func genC06Base(o *genOpts, k int) *History {
 		pre = r.between(0, 14)
 	}
 	switch shape {
+	case "caller-leaves-with-armed-timer":
+		// A call with a router-side timeout is pending at the callee; one of the
+		// two parties goes away (GOODBYE, dropped transport, wamp.session.kill,
+		// protocol violation); Close / RemoveRealm comes before the timeout.
+		_, by := b.population(0, r.between(3, 4))
+		callee, caller, third := by[0], by[1], by[2]
+		for _, s := range by[:3] {
+			h.Sessions[s].Realm = h.Realms[0]
+		}
+		b.add(Op{Op: "register", S: callee, Proc: "p1"})
+		b.regs[b.realmOf(callee)+"|p1"] = callee
+		b.randomOps(pre / 2)
+		if !b.alive[callee] || !b.alive[caller] || !b.alive[third] || b.regs[b.realmOf(callee)+"|p1"] != callee {
+			break
+		}
+		b.add(Op{Op: "call", S: caller, Proc: "p1", Hold: true, TimeoutMs: []int{10000, 90000, 3600000, 86400000}[r.intn(4)]})
+		b.heldAt[callee]++
+		b.pending[caller]++
+		who := caller
+		if r.chance(30) {
+			who = callee
+		}
+		switch r.intn(4) {
+		case 0:
+			b.add(Op{Op: "leave", S: who})
+		case 1:
+			b.add(Op{Op: "drop", S: who})
+		case 2:
+			b.add(Op{Op: "kill", S: third, Target: who})
+		default:
+			// protocol violation: payload passthru without the announced feature
+			b.add(Op{Op: "call", S: who, Proc: "p1", PPT: "x_custom"})
+		}
+		b.gone(who)
+		b.randomOps(r.between(0, 3))
 	case "armed-timer":
 		_, by := b.population(0, r.between(2, 3))
 		b.add(Op{Op: "register", S: by[0], Proc: "p1"})
